@@ -10,6 +10,10 @@ E3 = "procsim (process-level simulator: strace syscall fault / kill injection)"
 
 # id -> (engine, category, technique, level text, level note, design ref)
 CHECKS = {
+ "C19": (E1, "exploration",
+   "deterministic simulation: clone (cache) of generated repositories served by the simulated mirror, incl. a corrupted source target, followed by a reload from the two directories with the real FilesystemTransport; sandbox tree observed",
+   "Seeded repositories (1..3 root versions with optional online-key rotation, odd role and target names, both consistent-snapshot settings) are cloned with all targets or a subset, with/without root chain, optionally with one corrupted source target or an unlisted name. Oracle: nothing outside the two directories changes; the clone loads with identical role versions; every requested target reads back byte-identical; 1..N root files present when asked; a corrupted target is never stored and makes cache() fail.",
+   "Writes are drained before inspection (cache() does not flush; see DESIGN). Known finding: names the URL library percent-encodes cannot be read back over file:// URLs.", "DESIGN.md §5 C19"),
  "C18": (E2, "fault_enumeration",
    "deterministic simulation of the HTTP retry state machine: tough's real HttpTransport/RetryStream on tokio's paused clock, hook H3 answering each built request from an enumerated fault script (5xx, stalls, 4xx, range support)",
    "Every request tough builds is answered by a scripted server model: 200/206 full, body stalled after k bytes then timing out in virtual time, 500, 503, 403, 404, 410, 400, 416, with or without Accept-Ranges. All scripts up to tries+2 entries are enumerated for resource sizes 0..2 (quick: tries 1..2; thorough: tries 1..4), plus seeded runs up to 256 KiB with randomised back-off, time-out and chunking. Oracle: yielded bytes are a prefix of the resource and complete when the stream ends cleanly; requests <= tries; Range only after Accept-Ranges and at the yielded offset; 403/404/410 => FileNotFound; 400/416 => fatal, no further request; a reference client that completes within the budget implies tough completes.",
